@@ -70,6 +70,8 @@ impl VM {
     /// Reads a u16 value from the current position in the instructions array
     #[inline(always)]
     fn read_u8(&mut self) -> u8 {
+        #[cfg(feature = "verif")]
+        crate::verif::probe_operand(self.ip, 1, &self.instructions);
         let v = unsafe { *self.instructions.get_unchecked(self.ip) };
         self.ip += 1;
         v
@@ -78,6 +80,8 @@ impl VM {
     /// Reads a u16 value from the current position in the instructions array
     #[inline(always)]
     fn read_u16(&mut self) -> u16 {
+        #[cfg(feature = "verif")]
+        crate::verif::probe_operand(self.ip, 2, &self.instructions);
         let start = self.ip;
         self.ip += 2;
         let bytes = unsafe { self.instructions.get_unchecked(start..self.ip) };
@@ -96,6 +100,8 @@ impl VM {
     fn next(&mut self) -> OpCode {
         // Safety: if compiler did its job correctly, IP will always be in bounds
         // Performance: skipping the bounds check yields a 22% performance improvement
+        #[cfg(feature = "verif")]
+        crate::verif::probe_fetch(self.ip, &self.instructions, OpCode::Halt as u8);
         let byte = unsafe { *self.instructions.get_unchecked(self.ip) };
         self.ip += 1;
         OpCode::from(byte)
@@ -106,6 +112,8 @@ impl VM {
     /// Performance: -25% over a regular call to `Vec::pop()`
     #[inline(always)]
     fn pop(&mut self) -> Object {
+        #[cfg(feature = "verif")]
+        crate::verif::probe_pop(self.stack.len());
         debug_assert!(!self.stack.is_empty());
 
         // Safety: if the compiler and VM are implemented correctly, the stack will never be empty
@@ -179,6 +187,8 @@ impl VM {
         // Construct a new garbage collector
         // And allow to manage memory for constants
         let gc = &mut GC::new();
+        #[cfg(feature = "verif")]
+        let _verif_exit_guard = VerifExitGuard(self as *const VM);
         for c in &constants {
             gc.maybe_trace(*c)
         }
@@ -211,6 +221,10 @@ impl VM {
         let mut buffer = String::new();
 
         loop {
+            #[cfg(feature = "verif")]
+            if crate::verif::tick() {
+                return Err(Error::TypeError(crate::verif::BUDGET_MSG.to_string()));
+            }
             #[cfg(feature = "debug")]
             {
                 println!(
@@ -344,6 +358,8 @@ impl VM {
                 }
                 OpCode::Call => {
                     let num_args = self.read_u8();
+                    #[cfg(feature = "verif")]
+                    crate::verif::probe_call(self.stack.len(), num_args as usize);
                     let base_pointer = self.stack.len() as u16 - 1 - num_args as u16;
                     let obj = self.pop();
                     if obj.tag() != Type::Function {
@@ -369,6 +385,8 @@ impl VM {
                         args.push(self.pop());
                     }
                     args.reverse();
+                    #[cfg(feature = "verif")]
+                    crate::verif::probe_builtin(builtin, Builtin::Length as u8);
                     let builtin = unsafe { std::mem::transmute::<u8, Builtin>(builtin) };
                     let result = builtins::call(builtin, &args, gc)?;
                     self.push(result);
@@ -439,6 +457,18 @@ impl VM {
                 }
             }
         }
+    }
+}
+
+/// verif hook: hands the globals and the operand stack to an observer on every return path of `VM::run`
+#[cfg(feature = "verif")]
+struct VerifExitGuard(*const VM);
+
+#[cfg(feature = "verif")]
+impl Drop for VerifExitGuard {
+    fn drop(&mut self) {
+        let vm = unsafe { &*self.0 };
+        crate::verif::on_exit(&vm.globals, &vm.stack);
     }
 }
 
